@@ -143,7 +143,7 @@ def run_case(case):
         for t in ev:
             st = runner.get_at(res, "state", t)
             nrm = float(st.norm())
-            if abs(nrm - 1) > tol_norm:
+            if not abs(nrm - 1) <= tol_norm:  # NaN fails
                 return result(False, sig=f"norm|{case['backend']}", msg=f"{label}: |psi| = {nrm!r} at t={t * T:.1f} ns (allowed deviation {tol_norm:.1e})", outcome="norm")
     if not capped:
         for (a, b) in windows:
